@@ -244,6 +244,23 @@ def execute(h):
         if len(cls) != len(mt['units']) or \
                 sorted(iter(cls)) != sorted(mt['units']):
             violate('directory', 'len_or_iter', step, type=tn)
+        # the definition of a derived type names the types it was declared
+        # over, with their exponents (whatever the spelling: operators on
+        # the classes or a Term)
+        if not mt['base'] and not mt['catalogue']:
+            by_cls = {}
+            for c_, e_ in cls.definition:
+                by_cls[id(c_)] = by_cls.get(id(c_), 0) + e_
+            want = {}
+            for bn, e in mt['items']:
+                want[id(env.types[bn])] = want.get(id(env.types[bn]), 0) + e
+            want = {k: v for k, v in want.items() if v}
+            by_cls = {k: v for k, v in by_cls.items() if v}
+            if by_cls != want:
+                violate('directory', 'type_definition', step, type=tn,
+                        declared=[list(i) for i in mt['items']],
+                        observed=[[getattr(c_, '__name__', str(c_)), e_]
+                                  for c_, e_ in cls.definition])
         # reference unit of a derived type
         if not mt['base'] and mt['ref'] is not None and \
                 not mt['catalogue']:
